@@ -22,6 +22,7 @@ struct CertSpec {
     long not_after_off = 3600 * 24 * 30;
     long serial = 0;                  // 0 = allocate
     bool skid = true;                 // include subjectKeyIdentifier
+    bool rsa = false;                 // RSA-2048 key instead of EC P-256
 };
 
 struct Cert {
